@@ -1,0 +1,68 @@
+//! Verification hooks (compiled only with `--cfg hecs_verif`).
+//!
+//! Add-only instrumentation used by the external verification harness: a yield callback invoked
+//! immediately before atomic operations, and plain-data dumps of internal bookkeeping.
+
+use crate::alloc::vec::Vec;
+use core::any::TypeId;
+use core::sync::atomic::{AtomicUsize, Ordering};
+
+pub use crate::borrow::AtomicBorrow;
+
+static YIELD_FN: AtomicUsize = AtomicUsize::new(0);
+
+/// Install (or with `None` remove) the callback invoked at every yield point
+pub fn set_yield_fn(f: Option<fn(u32)>) {
+    YIELD_FN.store(f.map_or(0, |f| f as usize), Ordering::SeqCst);
+}
+
+/// Called immediately before an atomic operation; `site` identifies the call site
+#[inline]
+pub fn yield_point(site: u32) {
+    let f = YIELD_FN.load(Ordering::SeqCst);
+    if f != 0 {
+        let f: fn(u32) = unsafe { core::mem::transmute::<usize, fn(u32)>(f) };
+        f(site);
+    }
+}
+
+/// Snapshot of `Entities`
+#[derive(Debug, Clone)]
+pub struct EntitiesDump {
+    /// (generation, location.archetype, location.index) per id
+    pub meta: Vec<(u32, u32, u32)>,
+    /// The free/reserved list
+    pub pending: Vec<u32>,
+    /// Boundary between free and reserved
+    pub free_cursor: isize,
+    /// Live count
+    pub len: u32,
+}
+
+/// Snapshot of one `Archetype`
+#[derive(Debug, Clone)]
+pub struct ArchetypeDump {
+    /// (type id, size, align) per column, in storage order
+    pub types: Vec<(TypeId, usize, usize)>,
+    /// Number of rows
+    pub len: u32,
+    /// Allocated rows
+    pub capacity: u32,
+    /// Entity ids of rows `0..len`
+    pub ids: Vec<u32>,
+    /// Base address of each column
+    pub bases: Vec<usize>,
+    /// Raw borrow word of each column
+    pub borrow: Vec<usize>,
+}
+
+/// Snapshot of a `World`
+#[derive(Debug, Clone)]
+pub struct WorldDump {
+    /// Entity bookkeeping
+    pub entities: EntitiesDump,
+    /// Archetypes in index order
+    pub archetypes: Vec<ArchetypeDump>,
+    /// World id
+    pub id: u64,
+}
